@@ -4,7 +4,8 @@ P=$(readlink -f "$1"); shift
 cd /repo || exit 2
 if ! git diff --quiet; then echo "/repo has uncommitted changes"; exit 2; fi
 git apply "$P" || { echo "patch does not apply"; exit 2; }
-trap 'git -C /repo checkout -- . ; git -C /repo clean -fdq' EXIT
+mkdir -p /verif/.build; rm -rf /verif/.build/evidence.keep.$$; cp -a /verif/evidence /verif/.build/evidence.keep.$$
+trap 'git -C /repo checkout -- . ; git -C /repo clean -fdq; rm -rf /verif/evidence; mv /verif/.build/evidence.keep.$$ /verif/evidence' EXIT
 for id in "$@"; do
   out=$(/verif/check $id ${TIER:-quick} 2>&1); rc=$?
   echo "== $id rc=$rc"
